@@ -93,6 +93,9 @@ type Mask struct {
 
 	// mask metric
 	appliedMetric *metric.CounterVec
+
+	// scratch buffer of selectedSections
+	sections [][2]int
 }
 
 func compileMasks(masks []Mask, logger *zap.Logger) []Mask {
@@ -206,14 +209,9 @@ func (m *Mask) maskValue(value, buf []byte) ([]byte, bool) {
 	buf = buf[:0]
 
 	prevFinish := 0
-	curStart, curFinish := 0, 0
 	for _, index := range indexes {
-		for _, grp := range m.Groups {
-			curStart = index[grp*2]
-			curFinish = index[grp*2+1]
-			if curStart < 0 || curFinish < 0 { // invalid idx check
-				continue
-			}
+		for _, section := range m.selectedSections(index) {
+			curStart, curFinish := section[0], section[1]
 
 			buf = append(buf, value[prevFinish:curStart]...)
 			prevFinish = curFinish
@@ -227,7 +225,42 @@ func (m *Mask) maskValue(value, buf []byte) ([]byte, bool) {
 		}
 	}
 
-	// the tail starts after the last masked section: curFinish is -1 when the last selected
-	// group did not take part in the match
+	// the tail starts after the last masked section
 	return append(buf, value[prevFinish:]...), true
+}
+
+// selectedSections returns the [start, finish) ranges of the selected groups that took part
+// in the match, ordered by position with overlapping (nested) ranges merged into one.
+// Groups may be listed in any order and group numbers do not follow positions
+// (e.g. `((a)|b)+`), so the ranges cannot be used in the order of m.Groups.
+func (m *Mask) selectedSections(index []int) [][2]int {
+	sections := m.sections[:0]
+	for _, grp := range m.Groups {
+		start, finish := index[grp*2], index[grp*2+1]
+		if start < 0 || finish < 0 { // group did not participate in the match
+			continue
+		}
+		// insertion sort by (start, finish)
+		i := len(sections)
+		sections = append(sections, [2]int{})
+		for i > 0 && (sections[i-1][0] > start || (sections[i-1][0] == start && sections[i-1][1] > finish)) {
+			sections[i] = sections[i-1]
+			i--
+		}
+		sections[i] = [2]int{start, finish}
+	}
+
+	merged := sections[:0]
+	for _, section := range sections {
+		if n := len(merged); n > 0 && section[0] < merged[n-1][1] { // overlaps the previous one
+			if section[1] > merged[n-1][1] {
+				merged[n-1][1] = section[1]
+			}
+			continue
+		}
+		merged = append(merged, section)
+	}
+
+	m.sections = sections[:0]
+	return merged
 }
